@@ -392,7 +392,7 @@ Section OneHandler.
       destruct (IH H1) as (f & h & inos & D & Hr & I & _).
       unfold run_eff in *. rewrite fold_left_app, Hr. cbn [fold_left]. rewrite rev_app_distr. cbn [rev app].
       set (E := D ++ concat (map (content f) (rev inos))) in *.
-      destruct o as [msg| | |n|n c| | ]; try discriminate; unfold eff_step; cbn [step].
+      destruct o as [msg| | |n|n c| | |msg2]; try discriminate; unfold eff_step; cbn [step].
       + destruct (inv_emit f h E inos D msg I) as (f' & h' & inos' & D' & He & I' & Hlt).
         rewrite He. exists f', h', inos', D'. rewrite <- (inv_hist _ _ _ _ _ I').
         split; [reflexivity|]. split; assumption.
